@@ -95,8 +95,10 @@ func (c *c15) templateNilChains() {
 			}
 			nameArg, dataArg := call.Args[len(call.Args)-2], call.Args[len(call.Args)-1]
 			var defNames []string
+			var defSites []ast.Node // where each name is chosen (the call, or the assignment of the name)
 			if tv := a.info.Types[nameArg]; tv.Value != nil && tv.Value.Kind() == constant.String {
 				defNames = []string{constant.StringVal(tv.Value)}
+				defSites = []ast.Node{call}
 			} else if o := identObj(a.info, nameArg); o != nil {
 				// a local that only ever holds constant define names
 				allConst := true
@@ -108,6 +110,7 @@ func (c *c15) templateNilChains() {
 								if identObj(a.info, l) == o {
 									if tv := a.info.Types[x.Rhs[i]]; tv.Value != nil && tv.Value.Kind() == constant.String {
 										defNames = append(defNames, constant.StringVal(tv.Value))
+										defSites = append(defSites, x)
 									} else {
 										allConst = false
 									}
@@ -119,6 +122,7 @@ func (c *c15) templateNilChains() {
 							if a.info.Defs[nm] == o && i < len(x.Values) {
 								if tv := a.info.Types[x.Values[i]]; tv.Value != nil && tv.Value.Kind() == constant.String {
 									defNames = append(defNames, constant.StringVal(tv.Value))
+									defSites = append(defSites, x)
 								} else {
 									allConst = false
 								}
@@ -135,9 +139,11 @@ func (c *c15) templateNilChains() {
 				return true
 			}
 			nSites++
-			v := a.staticVal(dataArg)
-			v.nonNil = a.siteNonNil(f, call, dataArg)
-			for _, name := range defNames {
+			for k, name := range defNames {
+				v := a.staticVal(dataArg)
+				// what is known non-nil where THIS name is chosen (a name selected under
+				// `if s.Ref != nil` carries that fact to the call)
+				v.nonNil = a.siteNonNil(f, defSites[k], dataArg)
 				a.addDot(name, v)
 			}
 			return true
@@ -757,7 +763,7 @@ func (a *tmplNil) markTested(root tval, idents []string) {
 // ExecuteTemplate call site: the call stands in the then-branch of `if X.F != nil`
 // (or after `if X.F == nil { return … }`) and X is the data argument itself
 // (chain "F") or the value of TData key K (chain "K.F").
-func (a *tmplNil) siteNonNil(file *ast.File, call *ast.CallExpr, data ast.Expr) map[string]bool {
+func (a *tmplNil) siteNonNil(file *ast.File, call ast.Node, data ast.Expr) map[string]bool {
 	out := map[string]bool{}
 	var fd *ast.FuncDecl
 	for _, d := range file.Decls {
